@@ -64,7 +64,12 @@ def gen_case(rng, k, big, only=None):
         if not fd and n > 400:
             n = rng.randint(9, 120)
         biv = rng.choice([None, None, 0.01, 0.02, 0.05, 0.1, 0.19])
-    return dict(biv=biv, n=n, sa=sa, da=da, pf=pf, dp=rng.choice([0, 0, 1]), prio=rng.randint(0, 7),
+    second = None
+    if not fd and da != 255 and rng.random() < 0.35:
+        # a second transfer on the same pair once the first has completed (theorem C10_sequence_of_transfers_all_deliver)
+        second = dict(n=rng.choice(SIZES[:8]) if rng.random() < 0.3 else rng.randint(9, 80), dp=rng.choice([0, 1]), prio=rng.randint(0, 7),
+                      pf=rng.choice([x for x in range(0, 240) if x not in (0xEA, 0xEB, 0xEC, 0xEE, 0x4D, 0x4E, 0x25)]), seed=rng.getrandbits(30))
+    return dict(second=second, biv=biv, n=n, sa=sa, da=da, pf=pf, dp=rng.choice([0, 0, 1]), prio=rng.randint(0, 7),
                 wa=rng.choice(WINDOWS + [rng.randint(1, 255)]), wb=rng.choice(WINDOWS + [rng.randint(1, 255)]),
                 lat=rng.choice([1, 500]), seed=rng.getrandbits(30), fnone=rng.random() < 0.3, fd=fd)
 
@@ -80,6 +85,10 @@ def scenario(c):
         return dict(stacks=stacks, lat=[c['lat']], jit=[1], script=script, horizon=1000 + min(g['tl'] for g in c['mpg']) + 3_000_000)
     npk = (c['n'] + 6) // 7
     script = [dict(t=1000, s=0, op='send', a=[c['dp'], c['pf'], c['da'], c['prio'], c['sa'], dict(seed=c['seed'], len=c['n'])])]
+    if c.get('second'):
+        g = c['second']
+        script.append(dict(t=1000 + npk * 12000 + 2_000_000, s=0, op='send', a=[g['dp'], g['pf'], c['da'], g['prio'], c['sa'], dict(seed=g['seed'], len=g['n'])]))
+        return dict(stacks=stacks, lat=[c['lat']], jit=[1], script=script, horizon=1000 + npk * 12000 + 2_000_000 + ((g['n'] + 6) // 7) * 12000 + 3_000_000)
     return dict(stacks=stacks, lat=[c['lat']], jit=[1], script=script,
                 horizon=1000 + npk * (int((c.get('biv') or 0.05) * 1e6) + 10000 if c['da'] == 255 else 12000) + 3_000_000)
 
@@ -95,7 +104,7 @@ def observe_impl(sc, res):
     return wab + [[-2]] + wba + [[-2]] + evb + [[-2]] + [[quiet]]
 
 
-def model_text(c, data):
+def model_text(c, data, data2=None):
     biv = 'None' if c.get('biv') is None else '(Some %d)' % int(round(c['biv'] * 1e6))
     if c.get('fd'):
         a = 'sub22 (init_node22 %d None %s) 1 (FAddr %d)' % (c['wa'], biv, c['sa'])
@@ -120,6 +129,10 @@ def model_text(c, data):
     s0 = '(net_send (net0 (%s) (%s) 1000) %d %d %d %d %d %s)' % (a, b, c['dp'], c['pf'], c['da'], c['prio'], c['sa'], C.zl(data))
     # broadcasts: the model's time of every frame after the announcement (theorems C09_bam_closed_loop_paced / C09_fd_...)
     timed = ' ++ [[-3]] ++ [map fst (tlog %d%%nat %s)]' % (fuel, s0) if c['da'] == 255 else ''
+    if c.get('second'):
+        g = c['second']
+        return ('obs (steps %d%%nat (net_send (steps %d%%nat %s) %d %d %d %d %d %s))'
+                % (3 * ((g['n'] + 6) // 7) + 12, fuel, s0, g['dp'], g['pf'], c['da'], g['prio'], c['sa'], C.zl(data2)))
     return 'obs (steps %d%%nat %s)%s' % (fuel, s0, timed)
 
 
@@ -134,10 +147,12 @@ def run(work, rng, n, big=False, tag='net', only=None):
         impl = observe_impl(sc, res)
         cases.append((c, sc, impl, data))
         res_tx['%s_%d' % (tag, k)] = [e for e in res.trace if e[2] == 'tx' and e[1] == 0]
-        files.append(('%s_%d' % (tag, k), (HEADER22 if c.get('fd') else HEADER) + 'Eval vm_compute in %s.\n' % model_text(c, data)))
+        data2 = list(scen.payload(sc['script'][1]['a'][5])) if c.get('second') else None
+        files.append(('%s_%d' % (tag, k), (HEADER22 if c.get('fd') else HEADER) + 'Eval vm_compute in %s.\n' % model_text(c, data, data2)))
     out = C.run_many_cases(work, files, timeout=300, par=12)
     mism, errors, bad = [], [], []
     for (name, _), (c, sc, impl, data) in zip(files, cases):
+        data2 = list(scen.payload(sc['script'][1]['a'][5])) if c.get('second') else None
         # the oracle on the implementation alone: p delivered exactly once to each subscriber of B, nothing left over
         cbs = [x for x in impl[impl.index([-2], impl.index([-2]) + 1) + 1:-2]]
         want = 2 if c['fnone'] else 1
@@ -147,6 +162,10 @@ def run(work, rng, n, big=False, tag='net', only=None):
             if [(x[2], x[4:]) for x in cbs] != exp or impl[-1] != [1]:
                 bad.append((c, sc, 'multi-PG closed loop on the implementation: callbacks on B %s, expected every group once per listener in order'
                             % str([(x[2], len(x) - 4) for x in cbs])[:200]))
+        elif c.get('second'):
+            if [x[4:] for x in cbs] != [data] * want + [data2] * want or impl[-1] != [1]:
+                bad.append((c, sc, 'two transfers in sequence on the implementation: %d callbacks on B (expected %d with the first payload, then %d with the second), tables empty=%s'
+                            % (len(cbs), want, want, impl[-1])))
         elif len(cbs) != want or any(x[4:] != data for x in cbs) or impl[-1] != [1]:
             bad.append((c, sc, 'closed loop on the implementation: %d callbacks on B (expected %d with the payload), tables empty=%s'
                         % (len(cbs), want, impl[-1])))
